@@ -85,7 +85,6 @@ def run(c):
     c.cov["evaluations"] = calls
     # ---- stage C
     mism = c.validate("Trace_C16", events, shards=14 if thorough else 12)
-    # DIVERGE / HARNESS lines are not returned by validate(): re-read them from a cheap second look at the notes
     def ev_at(idx): return json.loads(events[idx])
 
     def classify(idx, t):
